@@ -1,7 +1,7 @@
 """C10 - encoder output is always decodable, standardised and stable under re-encoding."""
 import time
 
-from .. import rt, judge
+from .. import rt, judge, skel
 from ..ctx import Ctx
 from ..oread import read_smiles
 from ..symstr import make_slots
@@ -67,6 +67,10 @@ def run(rep, tier, seed, budget):
     for i, t in enumerate(c03.spacer_inputs()[:2 if quick else 4]):
         plan.append(("long ring span / branch %d (1, 2, 3 index symbols)" % i, lambda t=t: make_slots("s", t),
                      {"template": [x if len(x) < 30 else "C*%d" % len(x) for x in t]}, "relaxed"))
+    SK = [(5, ("C",), ("",), ("", "="))] if quick else [(5, ("C", "N", "[NH+]"), ("", "="), ("", "=")), (6, ("C",), ("", "="), ("", "=")), (7, ("C",), ("",), ("",))]
+    for n, at, tb, rb in SK:
+        plan.append(("every skeleton of %d atoms %s in every writing order (tree bonds %s, ring bonds %s)" % (n, list(at), list(tb), list(rb)),
+                     lambda n=n, at=at, tb=tb, rb=rb: skel.skeleton(n, at, tb, rb), skel.bounds(n, at, tb, rb), "relaxed"))
     for n in ((1, 2) if quick else (1, 2, 3)):
         plan.append(("uniform N=%d tokens, free table" % n, lambda n=n: make_slots("s", [TOK] * n), {"tokens": TOK, "N_tokens": n}, "free"))
     for name, mk, bounds, tm in plan:
